@@ -433,7 +433,7 @@ theorem setitem_style (a acc : Attrs) (hs : styleToDict (styleStr a.sty) = a.sty
   simp only [e1, if_true, render, hs, ensureStyle_set _ _ hne]
   have e2 : dset sStyle DVal.style (dset sStyle DVal.style acc.dict) = dset sStyle DVal.style acc.dict :=
     dset_same _ _ _ (dget_dset_self _ _ _)
-  rw [e2, e2, e2, dset_of_not_mem _ _ _ hd]
+  rw [e2, e2, dset_of_not_mem _ _ _ hd]
 
 /-- The attribute loop of `__init__` over the (rendered) entries of a synchronised dict: plain entries are
     appended in order, `class` goes to the class list, `style` to the style map and the end of the dict. -/
